@@ -51,6 +51,14 @@ def run(ctx):
     ctx.model("MCVpsc", "MCVpsc_quick.cfg", workers=core.NCPU, heap="4g", label="exhaustive N=3 DAG, no-change stop rule")
     ctx.model("MCVpsc", "NegVpsc_coststop.cfg", workers=2, expect_violation="Feasible",
               label="negative self-test: cost-stationary stop rule ends infeasible")
+    # vacuity guards: every action of the model must be taken somewhere in the configurations that are checked (a coverage run
+    # showed that the N=3 lattice never takes Split in a first solve: it needs four variables, or a re-solve)
+    for cfg, prop, mod, what in (("ReachVpsc_merge.cfg", "Reach_Merge", "MCVpsc", "Merge"),
+                                 ("ReachVpsc_splitbetween.cfg", "Reach_SplitBetween", "MCVpsc", "SplitBetween"),
+                                 ("ReachVpsc_markunsat.cfg", "Reach_MarkUnsat", "MCVpsc", "MarkUnsat (cyclic instances)"),
+                                 ("ReachVpsc_secondround.cfg", "Reach_SecondRoundChanges", "MCVpsc", "a second satisfy round that changes the active set"),
+                                 ("ReachVpscResolve_split.cfg", "Reach_Split", "VpscResolve", "Split (re-solve model)")):
+        ctx.model(mod, cfg, workers=4, heap="3g", expect_violation=prop, label="reachability witness: the model takes " + what)
     ctx.model("VpscResolve", "VpscResolve_quick.cfg" if quick else "VpscResolve.cfg", workers=core.NCPU, heap="6g",
               label="re-solve: setDesiredPositions + solve() from every block structure a first solve leaves behind (N=3 DAG)")
     if not quick:
